@@ -14,6 +14,7 @@ CONSTANTS
   ShareEffect = "temperature_scales_pressure"
   RADS = {8}
   GMS = {64}
+  TableEnds = "nearest"
   Slicing = "layer"
   Export = FALSE
 INVARIANT LayerIsGeometricMean
